@@ -1,7 +1,8 @@
 /-
   Driver/C03.lean — line-protocol front end of Model/Ctxt.lean.
     stream `c03` : (c03 VARIANT (P…)) → OBS;OBS;…      one `{xKEY=VAL,…}` (sorted by key) per observation, in order
-      VARIANT ::= concrete | erased | boxed | option     which `Ctxt` impl the harness drives (`boxed` = erased frames
+      VARIANT ::= concrete | erased | boxed | option | assert | assertdyn | assertarc | ref | box | arc | boxdyn | slot
+                                                          which `Ctxt` impl the harness drives (`boxed` = erased frames
                                                           too large for inline storage); the model only takes the
                                                           storage class from it
       P ::= (obs C) | (new F C KIND (props (xKEY VAL)…)) | (use F MODE P…) | (on T P…) | (catch P…) | (panic)
@@ -121,6 +122,15 @@ def variant? : Sexp → Option Bool
   | .atom "concrete" => some true
   | .atom "erased" => some true
   | .atom "option" => some true
+  -- forwarding wrappers around the concrete ctxt: transparent (theorem `wrappers_transparent`), the model is the same
+  | .atom "assert" => some true
+  | .atom "assertdyn" => some true
+  | .atom "assertarc" => some true
+  | .atom "ref" => some true
+  | .atom "box" => some true
+  | .atom "arc" => some true
+  | .atom "boxdyn" => some true
+  | .atom "slot" => some true
   | .atom "boxed" => some false
   | _ => none
 
